@@ -95,6 +95,129 @@ def eval_case(case: dict) -> dict:
     return out
 
 
+class _View:
+    """A realised program with another requested-result set over the same Python objects."""
+
+    def __init__(self, R, main):
+        self.main = main
+        self.node_id = R.node_id
+        self.graph_id = R.graph_id
+        self.graphs = R.graphs
+
+
+def _history_requests(L, ap: dict, hseed: int) -> list[list[int]]:
+    """Output sets over one program: the original request, a superset (values that are also used
+    inside bodies become outputs too), a different single output."""
+    import random as _r
+
+    rng = _r.Random(hseed)
+    memo: dict[int, frozenset] = {}
+
+    def fa(n):
+        if n in memo:
+            return memo[n]
+        nd = ap["nodes"][n]
+        if nd["a"]:
+            r = frozenset([n])
+        else:
+            acc: set[int] = set()
+            for i in nd["i"]:
+                acc |= fa(i)
+            for g in nd["s"]:
+                gr = ap["graphs"][g]
+                sub: set[int] = set()
+                for r_ in gr["res"]:
+                    sub |= fa(r_)
+                acc |= sub - set(gr["args"] or [])
+            r = frozenset(acc)
+        memo[n] = r
+        return r
+
+    main_args = set(ap["graphs"][0]["args"] or [])
+    elig = [n for n, nd in enumerate(ap["nodes"]) if not nd["a"] and nd["ty"] == "f" and fa(n) <= main_args]
+    base = list(ap["graphs"][0]["res"])
+    if not elig:
+        return [base]
+    reach = L.ap_reachable(ap)
+    inner = [n for n in elig if n in reach and n not in base]
+    extra = rng.sample(inner, min(len(inner), rng.randrange(1, 3))) if inner else [rng.choice(elig)]
+    single = [rng.choice(inner)] if inner and rng.random() < 0.7 else [rng.choice(elig)]
+    reqs = [base, base + [e for e in extra if e not in base], single]
+    out = []
+    for r in reqs:
+        if r not in out:
+            out.append(r)
+    return out
+
+
+def eval_history(case: dict) -> dict:
+    """Several models over the SAME Python objects in one process, each judged by the oracle; every
+    request is also built on fresh objects and the two emissions are compared."""
+    out: dict = {"case": case, "oracle": [], "builds": 0, "history_dependent": None}
+    try:
+        core.use_repo_on_path()
+        from harness import lib_buildalg as L
+        from spox import _graph
+
+        def realise():
+            return L.realise_script(case["script"])
+
+        def build(R, req):
+            ap = R.ap
+            ap_req = dict(ap, graphs=[dict(ap["graphs"][0], res=list(req))] + ap["graphs"][1:])
+            vars_ = [list(R.nodes[r].outputs.get_vars().values())[0] for r in req]
+            args = list(R.main.requested_arguments)
+            g = _graph.results(**{f"out{k}": v for k, v in enumerate(vars_)}).with_arguments(*args)
+            pub = L.build_public(_View(R, g))
+            proto = pub["_model"] if pub["ok"] else pub.get("_unchecked")
+            tr = None
+            if proto is not None:
+                try:
+                    tr = L.trace_from_proto(ap_req, proto)
+                except Exception as e:  # noqa: BLE001
+                    tr = f"unreadable: {type(e).__name__}"
+            return ap_req, pub, ("ok" if pub["ok"] else pub["err"], tr)
+
+        try:
+            R0 = realise()
+        except Exception as e:  # noqa: BLE001
+            out["unrealisable"] = f"{type(e).__name__}: {str(e)[:100]}"
+            return out
+        seqs = case.get("sequences")
+        if seqs is None:
+            reqs = _history_requests(L, R0.ap, case.get("hseed", 0))
+            seqs = [reqs, list(reversed(reqs))] if len(reqs) > 1 else [reqs]
+        fresh: dict[tuple, tuple] = {}
+        for seq in seqs:
+            R = realise()
+            for k, req in enumerate(seq):
+                ap_req, pub, summary = build(R, req)
+                out["builds"] += 1
+                key = tuple(req)
+                if k == 0:
+                    fresh.setdefault(key, summary)
+                elif key not in fresh:
+                    _, _, fs = build(realise(), req)
+                    out["builds"] += 1
+                    fresh[key] = fs
+                for okey, what in L.oracle(ap_req, pub):
+                    out["oracle"].append((
+                        "history:" + okey,
+                        f"after building {seq[:k]} over the same objects, request {req}: " + what,
+                        {"kind": "history", "script": case["script"], "sequences": [seq[: k + 1]]},
+                    ))
+                if summary != fresh[key] and out["history_dependent"] is None:
+                    out["history_dependent"] = {
+                        "sequence": seq[: k + 1], "request": req,
+                        "verdict_after_history": summary[0], "verdict_fresh": fresh[key][0],
+                    }
+    except Exception as e:  # noqa: BLE001
+        import traceback
+
+        out["infra_error"] = f"{type(e).__name__}: {e}"[:300] + " | " + traceback.format_exc()[-400:]
+    return out
+
+
 def _shape_stats(ap: dict) -> dict:
     """Nesting depth (by creation-time ownership) and whether some control-flow node's output is
     consumed from two unrelated scopes of different depth (the interleaving the relaxation order is
@@ -239,6 +362,17 @@ def run_cases(ck: core.Check, cases: list[dict]) -> list[dict]:
         return [eval_case(c) for c in cases]
 
 
+def run_history_cases(ck: core.Check, cases: list[dict]) -> list[dict]:
+    if len(cases) < 100:
+        return [eval_history(c) for c in cases]
+    try:
+        with mp.get_context("fork").Pool(12) as pool:
+            return pool.map(eval_history, cases, chunksize=max(1, len(cases) // 120))
+    except Exception as e:  # noqa: BLE001
+        ck.notes.append(f"worker pool failed ({type(e).__name__}: {e}); histories evaluated in-process")
+        return [eval_history(c) for c in cases]
+
+
 def run(ck: core.Check, prove: bool = True):
     from harness import lib_buildalg as L
 
@@ -270,7 +404,30 @@ def run(ck: core.Check, prove: bool = True):
     ck.cov["generated"]["lowlevel_variants"] = len(vcases)
     ck.log(f"{len(results)} programs realised and built with the real Builder")
 
-    infra = [r for r in results if "infra_error" in r]
+    # --- multi-build histories over the same Python objects (oracle only)
+    hsrc = [c for c in cases if c["kind"] == "script"]
+    hrng = random.Random(ck.seed * 104729 + 7)
+    hrng.shuffle(hsrc)
+    hcases = [{"kind": "history", "script": c["script"], "hseed": hrng.randrange(1 << 30), "family": c.get("family")}
+              for c in hsrc[: ck.pick(900, 9000)]]
+    hresults = run_history_cases(ck, hcases)
+    hstats = {"programs": len(hcases), "builds": sum(r["builds"] for r in hresults),
+              "history_dependent_emission": sum(1 for r in hresults if r.get("history_dependent")),
+              "unrealisable": sum(1 for r in hresults if "unrealisable" in r)}
+    ck.cov["histories"] = hstats
+    hdep = next((r for r in hresults if r.get("history_dependent")), None)
+    if hdep is not None:
+        ck.broken("correspondence",
+                  f"the emission for a request depends on what was built before over the same objects ({hstats['history_dependent_emission']} programs)",
+                  json.dumps({"script": hdep["case"]["script"], **hdep["history_dependent"]})[:1400])
+    hfails: dict[str, tuple[int, dict, str]] = {}
+    for r in hresults:
+        for key, what, hcase in r["oracle"]:
+            size = len(json.dumps(hcase))
+            if key not in hfails or size < hfails[key][0]:
+                hfails[key] = (size, hcase, what)
+
+    infra = [r for r in results if "infra_error" in r] + [r for r in hresults if "infra_error" in r]
     if infra:
         ck.broken("correspondence", f"harness: {len(infra)} case(s) could not be evaluated", infra[0]["infra_error"])
     todo = [r for r in results if "ap" in r and "verdict" in r]
@@ -397,7 +554,11 @@ def run(ck: core.Check, prove: bool = True):
     ck.exhaustive = False
     for key, (_, case, what) in sorted(fails.items()):
         ck.failure(key, what, case, how="realise the case (script: if_/loop callbacks; ap: low-level Graph API), build, inspect the ModelProto")
-    ck.log(f"correspondence mismatches: {mism} {mism_by}; unobservable: {stats['facets_unobservable']}; oracle failure kinds: {sorted(fails)}")
+    for key, (_, case, what) in sorted(hfails.items()):
+        # a well-scoped program rejected / a model with duplicated or misplaced nodes after an earlier
+        # build over the same objects: the same property failure, reached through a history
+        ck.failure(key, what, case, how="realise the script once, build the listed requests in order over the same objects, inspect each ModelProto")
+    ck.log(f"correspondence mismatches: {mism} {mism_by}; unobservable: {stats['facets_unobservable']}; oracle failure kinds: {sorted(fails) + sorted(hfails)}; histories: {hstats}")
 
 
 def replay(ck: core.Check, doc: dict) -> bool:
@@ -413,6 +574,16 @@ def replay(ck: core.Check, doc: dict) -> bool:
             ck._driver.close()
         return bool(ck.broken_items or ck.failures)
     case = doc["case"]
+    if case.get("kind") == "history":
+        r = eval_history(case)
+        if "infra_error" in r or "unrealisable" in r:
+            print("history cannot be evaluated:", r.get("infra_error") or r.get("unrealisable"))
+            return False
+        for key, what, _ in r["oracle"]:
+            print(f"{key}: {what}")
+        want = doc.get("key")
+        keys = [k for k, _, _ in r["oracle"]]
+        return (want in keys) if want else bool(keys)
     r = eval_case(case)
     if "infra_error" in r:
         print("case could not be evaluated:", r["infra_error"])
